@@ -174,6 +174,9 @@ func run(c *core.Ctx) {
 				p.Shared = ccblisten.Has(sc, "fwd") > 1 && rng.Intn(3) == 0
 				if ccblisten.Has(sc, "fwd") > 0 && t.Deterministic(sc) && rng.Intn(2) == 0 {
 					p.Burst = 2 + rng.Intn(7)
+					if rng.Intn(3) == 0 {
+						p.Burst = 12 + rng.Intn(8)
+					}
 				}
 				jobs = append(jobs, ccblisten.Job{Table: g.name, Script: sc, P: p})
 			}
@@ -206,5 +209,5 @@ func run(c *core.Ctx) {
 		c.Broken("G01: %d of %d runs produced scripts outside the generated set (timing assumptions do not hold on this machine)", st.UnknownScript, nJobs)
 	}
 	c.Set("exhaustive", c.Thorough())
-	c.Set("rule", "behaviours = every interleaving of the scripted environment (a broker answering a registration: fresh grant / same id / grant without cookie / refusal / hang-up / garbage; forwarding up to two requests, sequentially or concurrently, to a requester that accepts / refuses / has no usable address; ALIVE, unknown and malformed messages; dropping the connection at rest or with a request in flight; a heartbeat being waited for; the context ending at any point) with the listener's internal steps, printed by TLC from Gen_CCBListener; behaviours with the same environment script form its set of admissible outcomes; each script is one REAL ccb.Listener.Run against scripted brokers built on cedar's server package and loopback requesters; abstract classes expand to concrete members by a seeded salt (which garbage, which refusal ad, address spelling, route attributes, burst of 2-8 concrete requests per model request on deterministic scripts, shared requester address, a second undisturbed broker); quick replays a seeded sample (about 350 scripts per configuration and 12 heartbeat scripts), thorough every script; non-trivial = script with at least two environment steps besides the first registration and the end")
+	c.Set("rule", "behaviours = every interleaving of the scripted environment (a broker answering a registration: fresh grant / same id / grant without cookie / refusal / hang-up / garbage; forwarding up to two requests, sequentially or concurrently, to a requester that accepts / refuses / has no usable address; ALIVE, unknown and malformed messages; dropping the connection at rest or with a request in flight; a heartbeat being waited for; the context ending at any point) with the listener's internal steps, printed by TLC from Gen_CCBListener; behaviours with the same environment script form its set of admissible outcomes; each script is one REAL ccb.Listener.Run against scripted brokers built on cedar's server package and loopback requesters; abstract classes expand to concrete members by a seeded salt (which garbage, which refusal ad, address spelling, route attributes, burst of 2-19 concrete requests per model request on deterministic scripts, with long echoed addresses, shared requester address, a second undisturbed broker); quick replays a seeded sample (about 350 scripts per configuration and 12 heartbeat scripts), thorough every script; non-trivial = script with at least two environment steps besides the first registration and the end")
 }
